@@ -62,7 +62,10 @@ Definition c04_connect (c : cfg) (s s' : srv) (eio : str) (pn : option str) (dat
                 match refusal with
                 | None => frames_eqb (outs_of eio obs) accept_frames && is_member (mg s') sid
                 | Some why =>
-                    (if always_connect c
+                    (* a refusal whose arguments cannot be encoded cannot be announced at all:
+                       outside the domain for the answer, still no membership may remain *)
+                    (if match frames_of c CONNECT_ERROR why ns None with Err _ => true | Ok _ => false end then true
+                     else if always_connect c
                      then frames_eqb (outs_of eio obs) (app_res accept_frames (frames_of c DISCONNECT why ns None))
                      else frames_eqb (outs_of eio obs) (frames_of c CONNECT_ERROR why ns None)) &&
                     negb (is_member (mg s') sid)              (* retains no membership anywhere *)
